@@ -271,7 +271,8 @@ def r_names(c):
 
 def r_call_check(c):
     m = c.model
-    call = m.func(FN + ".FunctionDefinition.__call__")
+    # a checking helper split off __call__ and hoisted locals are seen through
+    call = m.expand_locals(m.inlined(m.func(FN + ".FunctionDefinition.__call__")))
     ok = any(isinstance(i, ast.If) and isinstance(i.test, ast.Compare)
              and {ast.unparse(i.test.left), ast.unparse(i.test.comparators[0])} ==
              {"self.parameters", f"frozenset({call.args.kwarg.arg})"}
@@ -496,14 +497,14 @@ def r_inline(c):
     mc = m.func(T + "Inliner.map_call")
     ep = mc.args.args[1].arg
     where = m.loc(m.module_of(mc), mc)
-    inl = find(mc, f"""
-if {ep}.tags_of_type(InlineCallTag):
-    $sub = PlaceholderSubstitutor({ep}.bindings)
-    return DictOfNamedArrays({{$n: _verify_is_array(self.rec($sub($r)))
-                              for $n, $r in {ep}.function.returns.items()}}, tags={ep}.tags)
-else:
-    return super().map_call({ep})
-""")
+    from pta.pat import returns_are
+    inl = [1] if returns_are(m, mc, {
+        ((f"{ep}.tags_of_type(InlineCallTag)", True),):
+            f"DictOfNamedArrays({{$n: _verify_is_array(self.rec(PlaceholderSubstitutor("
+            f"{ep}.bindings)($r))) for $n, $r in {ep}.function.returns.items()}}, "
+            f"tags={ep}.tags)",
+        ((f"{ep}.tags_of_type(InlineCallTag)", False),): f"super().map_call({ep})",
+    }) else []
     c.check(len(inl) == 1, "R12-INLINE", "Inliner.map_call",
             "tagged:substitute-own-bindings-keyed-by-return-names;untagged:copied", where,
             "a tagged call is not replaced by {return name: recursed, substituted return} "
@@ -537,14 +538,11 @@ else:
             "definition with other arguments")
     nr = m.func(T + "Inliner.map_named_call_result")
     ep2 = nr.args.args[1].arg
-    c.check(has(nr, f"""
-$new = self.rec({ep2}._container)
-assert isinstance($new, AbstractResultWithNamedArrays)
-if isinstance($new, Call):
-    return $new[{ep2}.name]
-else:
-    return $new[{ep2}.name].expr
-"""), "R12-INLINE", "Inliner.map_named_call_result", "selects-result-by-name",
+    rc = f"self.rec({ep2}._container)"
+    c.check(returns_are(m, nr, {
+        ((f"isinstance({rc}, Call)", True),): f"{rc}[{ep2}.name]",
+        ((f"isinstance({rc}, Call)", False),): f"{rc}[{ep2}.name].expr",
+    }), "R12-INLINE", "Inliner.map_named_call_result", "selects-result-by-name",
             m.loc(m.module_of(nr), nr), "the inlined result is not selected by the "
             "call result's own name")
     im = m.func(T + "InlineMarker.map_call")
